@@ -1,8 +1,8 @@
 #!/usr/bin/env python3
-"""usage: tools/keep_seed.py <Cxx> <seed-id> <caught_by|MISSED> "<what I ran>"  — stores /tmp/seed-<Cxx>-out as /verif/seeded/<seed-id>/"""
+"""usage: tools/keep_seed.py <Cxx> <seed-id> <caught_by|MISSED> "<what I ran>" [outdir]  — stores /tmp/seed-<Cxx>-out as /verif/seeded/<seed-id>/"""
 import json, os, shutil, sys
 pid, sid, caught, ran = sys.argv[1:5]
-src = "/tmp/seed-%s-out" % pid
+src = sys.argv[5] if len(sys.argv) > 5 else "/tmp/seed-%s-out" % pid
 dst = os.path.join("/verif/seeded", sid)
 os.makedirs(dst, exist_ok=True)
 shutil.copy(os.path.join(src, "patch.diff"), os.path.join(dst, "patch.diff"))
